@@ -413,9 +413,10 @@ var kC16 = register(&Kind[c16Case]{Prop: "C16", Name: "block", Gen: genC16, Eval
 // ---- kind: tx -----------------------------------------------------------------------
 
 type c16TxCase struct {
-	Spec c16TxSpec `json:"tx"`
-	Ctor int       `json:"ctor"` // 0 NewTx 1 FromBytes 2 FromReader
-	Ops  []c16Op   `json:"ops"`  // hash index setindex msgtx
+	Spec  c16TxSpec `json:"tx"`
+	Ctor  int       `json:"ctor"`  // 0 NewTx 1 FromBytes 2 FromReader
+	Trail HexBytes  `json:"trail"` // bytes following the serialised transaction in the input (ctor 1, 2)
+	Ops   []c16Op   `json:"ops"`   // hash index setindex msgtx
 }
 
 func evalC16Tx(c c16TxCase, o *Obs) error {
@@ -438,13 +439,16 @@ func evalC16Tx(c c16TxCase, o *Obs) error {
 	case 0:
 		t = bchutil.NewTx(m)
 	case 1:
-		if t, err = bchutil.NewTxFromBytes(raw); err != nil {
-			return fmt.Errorf("NewTxFromBytes of a valid transaction failed: %v", err)
+		if t, err = bchutil.NewTxFromBytes(append(append([]byte{}, raw...), c.Trail...)); err != nil {
+			return fmt.Errorf("NewTxFromBytes of a valid transaction (+%d trailing bytes) failed: %v", len(c.Trail), err)
 		}
 	default:
-		if t, err = bchutil.NewTxFromReader(bytes.NewReader(raw)); err != nil {
-			return fmt.Errorf("NewTxFromReader of a valid transaction failed: %v", err)
+		if t, err = bchutil.NewTxFromReader(bytes.NewReader(append(append([]byte{}, raw...), c.Trail...))); err != nil {
+			return fmt.Errorf("NewTxFromReader of a valid transaction (+%d trailing bytes) failed: %v", len(c.Trail), err)
 		}
+	}
+	if len(c.Trail) > 0 && c.Ctor != 0 {
+		o.Class("C16:tx-input-with-trailing-bytes")
 	}
 	o.NT()
 	o.Class("C16:tx-ctor=%d", c.Ctor)
@@ -488,6 +492,9 @@ var kC16Tx = register(&Kind[c16TxCase]{
 		for i := rapid.IntRange(0, 6).Draw(t, "nops"); i > 0; i-- {
 			c.Ops = append(c.Ops, c16Op{rapid.SampledFrom([]string{"hash", "setindex", "msgtx"}).Draw(t, "op"), rapid.IntRange(-1, 50).Draw(t, "i")})
 		}
+		if rapid.IntRange(0, 2).Draw(t, "trail") == 0 {
+			c.Trail = genBytes(t, "trailb", 1, 40)
+		}
 		return c
 	},
 	Eval: evalC16Tx,
@@ -507,6 +514,6 @@ func TestC16(t *testing.T) {
 		kC16.Run(t, ev, perShard(pick(3000, 1500000)))
 		kC16Tx.Run(t, ev, perShard(pick(1500, 750000)))
 		ev.requireClasses("C16:ctor=0", "C16:ctor=1", "C16:ctor=2", "C16:ctor=3", "C16:sparse-cache-then-all",
-			"C16:out-of-range-index", "C16:empty-block", "C16:block-with-token-data", "C16:tx-ctor=1", "C16:sibling-block-interleaved")
+			"C16:out-of-range-index", "C16:empty-block", "C16:block-with-token-data", "C16:tx-ctor=1", "C16:sibling-block-interleaved", "C16:tx-input-with-trailing-bytes")
 	})
 }
